@@ -3,7 +3,7 @@
 R-ALG: with all stored entries as symbols, every entry of mul_mat / mul_vec / add / sub / scalar scaling equals the
 textbook expression, determinant equals the Leibniz polynomial and every entry of inverse equals cofactor/determinant,
 as exact polynomial / rational identities (complete decision for ring expressions).  R-COPY for transpose / negation.
-R-ROUND: rounding-depth and no-cancellation certificate for the polynomial results."""
+R-ROUND: rounding-depth and no-cancellation certificate for the polynomial results (matrix x matrix, matrix x vector, determinant)."""
 import re
 import terms as tm
 import nf
